@@ -81,6 +81,23 @@ def make_cases(rng, order, tier, maxl):
         cases.append({"id": "d%d_cancel%s_%d" % (order, which, k), "extra": {"order": order, "geom": "cancelling-components-" + which},
                       "shells": [gen.rand_shell(rng, LA, A), gen.rand_shell(rng, LB, B)],
                       "ecps": [gen.rand_ecp(rng, rng.randint(0, 2), C, nper=(1, 1))]})
+    # twin shells: the SAME contraction (l, exponents, coefficients) on two different centres, both off the ECP centre (the same element
+    # on two atoms); and shells whose public exponents / coefficients were changed in place after construction (renormalised contraction):
+    # whatever the routines derive from a shell must be derived from its CURRENT members, and from each shell separately
+    lim2 = maxl - order
+    for k in range(6 if tier == "quick" else 40):
+        L = rng.randint(0, max(0, min(lim2, 2)))
+        A, B, C = gen.geometry(rng, "distinct")
+        sa = gen.rand_shell(rng, L, A, nprim=rng.randint(1, 2))
+        sb = dict(sa); sb["c"] = B
+        u = gen.rand_ecp(rng, rng.randint(0, min(maxl, 2)), C, nper=(1, 1))
+        cases.append({"id": "d%d_twin_%d" % (order, k), "extra": {"order": order, "geom": "twin-shells"}, "shells": [sa, sb], "ecps": [u]})
+    for k in range(8 if tier == "quick" else 50):
+        LA = rng.randint(0, max(0, min(lim2, 2))); LB = rng.randint(0, max(0, min(lim2, 2)))
+        A, B, C = gen.geometry(rng, rng.choice(["distinct", "distinct", "A=B", "B=C"]))
+        sa = gen.rand_shell(rng, LA, A, nprim=rng.randint(1, 3)); sb = gen.rand_shell(rng, LB, B, nprim=rng.randint(1, 2))
+        u = gen.rand_ecp(rng, rng.randint(0, min(maxl, 2)), C, nper=(1, 1))
+        cases.append({"id": "d%d_mut_%d" % (order, k), "extra": {"order": order, "geom": "modified-in-place", "mutate": 1}, "shells": [sa, sb], "ecps": [u]})
     return cases
 
 
